@@ -53,6 +53,7 @@ pub struct ProbeStats {
     pub post_cancel_nodes_max: u64,
     pub triggers_fired: u64,
     pub cancel_mid_iteration: u64,
+    pub interrupts_observed: u64,
 }
 
 pub struct Run {
